@@ -127,6 +127,9 @@ func (k *checker) ladderSet(n int, s float64, only *LadderCase) {
 		if only != nil && only.Script != script {
 			continue
 		}
+		if only != nil && only.Script == 4 {
+			break
+		}
 		choice.Reset(ladderScript(script, 2*n+2))
 		var root rendering.Hittable
 		o := core.Guard(func() { root = rendering.NewBVHFromMesh(ladderMesh(n, s, 0, n), nil) })
@@ -165,6 +168,39 @@ func (k *checker) ladderSet(n int, s float64, only *LadderCase) {
 				violate(site, clNearest, what, fmt.Sprintf("hierarchy %+v, exhaustive scan %+v %s", got, r.nearest, o.Msg), script, qi)
 			}
 			c.Eval(scope, out)
+		}
+	}
+	// NewBVHTree over the caller's own slice (the per-element hierarchies): after the build a second
+	// hierarchy is built from the same slice (the builder sorts it in place, along other axes) and the
+	// slice is refilled in reverse — the first hierarchy must not notice (script id 4)
+	if only == nil || only.Script == 4 {
+		shared := append([]rendering.Hittable{}, els...)
+		var first rendering.Hittable
+		o := core.Guard(func() {
+			choice.Reset(ladderScript(3, 2*n+2))
+			first = rendering.NewBVHTree(shared, 0, n, 0, 0)
+			choice.Reset(ladderScript(0, 2*n+2))
+			_ = rendering.NewBVHTree(shared, 0, n, 0, 0)
+			for i, j := 0, n-1; i < j; i, j = i+1, j-1 {
+				shared[i], shared[j] = shared[j], shared[i]
+			}
+		})
+		if o.Panicked {
+			c.Eval(scope+"/callers-slice-reused", "build-crash")
+			violate("rendering.NewBVHTree", "the hierarchy can be built for every element list and axis sequence", "build", o.Msg, 4, 0)
+			return
+		}
+		for qi, r := range rcs {
+			if r == nil {
+				continue
+			}
+			got, o := hit(first, r)
+			out := "ok"
+			if o.Panicked || !near(got, r.nearest) {
+				out = "mismatch"
+				violate("rendering.NewBVHTree", clNearest, "callers-slice-reused-after-the-build", fmt.Sprintf("first hierarchy %+v after a second build from the same slice and a refill, exhaustive scan %+v %s", got, r.nearest, o.Msg), 4, qi)
+			}
+			c.Eval(scope+"/callers-slice-reused", out)
 		}
 	}
 }
